@@ -318,7 +318,7 @@ def getAlignedPayload (self : PTFR.State) (first : Bool) (rem : Option Bytes) : 
     else if rem.isNone && offMid then self.payload.drop self.ptdp_offset
     else if rem == some [] && offMid then self.payload.drop self.ptdp_offset
     else match rem with
-      | none => self.payload
+      | none => if self.ptdp_offset = 0x7FF then [] else self.payload   -- mid-capture: skip a "none begins" frame
       | some r => r ++ self.payload
   let byteOffset : Int :=
     if isLlp then 0
